@@ -254,7 +254,15 @@ func NewSystem(topo *Topo) *System {
 	for n := range topo.LF {
 		names = append(names, n)
 	}
-	sort.Strings(names)
+	// server features first: S1 of entity [1] and S4 of the nested entity [1,1] then both have feature number 1 (an
+	// address comparison that confuses an entity with its parent shows on features with data and subscribers)
+	sort.Slice(names, func(i, j int) bool {
+		si, sj := topo.LF[names[i]].Role == "server", topo.LF[names[j]].Role == "server"
+		if si != sj {
+			return si
+		}
+		return names[i] < names[j]
+	})
 	for _, n := range names {
 		fi := topo.LF[n]
 		var f api.FeatureLocalInterface
